@@ -48,9 +48,14 @@ type c34info struct {
 	dir  bool
 }
 
-func (i c34info) Name() string               { return i.name }
-func (i c34info) Size() int64                { return 0 }
-func (i c34info) Mode() fs.FileMode          { if i.dir { return fs.ModeDir | 0o755 }; return 0o644 }
+func (i c34info) Name() string { return i.name }
+func (i c34info) Size() int64  { return 0 }
+func (i c34info) Mode() fs.FileMode {
+	if i.dir {
+		return fs.ModeDir | 0o755
+	}
+	return 0o644
+}
 func (i c34info) Type() fs.FileMode          { return i.Mode().Type() }
 func (i c34info) ModTime() time.Time         { return time.Time{} }
 func (i c34info) IsDir() bool                { return i.dir }
@@ -168,7 +173,9 @@ func (p *c34) Run(c fw.Case, r *fw.Rec) {
 	case 1:
 		filter = func(fi fs.FileInfo) bool { return !strings.Contains(fi.Name(), "foo") }
 	case 2:
-		filter = func(fi fs.FileInfo) bool { return !strings.HasSuffix(fi.Name(), "_test.gox") && !strings.HasPrefix(fi.Name(), "x_") }
+		filter = func(fi fs.FileInfo) bool {
+			return !strings.HasSuffix(fi.Name(), "_test.gox") && !strings.HasPrefix(fi.Name(), "x_")
+		}
 	}
 	mode := parser.Mode(0)
 	if gx == 1 {
